@@ -21,6 +21,6 @@ def fixed_table():
     return "\n".join(out)
 s = open(V + "/DESIGN.md").read()
 for tag, gen in (("SEEDED", seeded_table), ("FINDINGS", fixed_table)):
-    s = re.sub(r"(<!-- BEGIN %s -->\n).*?(\n<!-- END %s -->)" % (tag, tag), lambda m: m.group(1) + gen() + m.group(2), s, flags=re.S)
+    s = re.sub(r"(<!-- BEGIN %s -->\n).*?(<!-- END %s -->)" % (tag, tag), lambda m: m.group(1) + gen() + "\n" + m.group(2), s, flags=re.S)
 open(V + "/DESIGN.md", "w").write(s)
 print("DESIGN.md tables regenerated")
